@@ -46,6 +46,7 @@ type pfxGeom struct {
 	page     int
 	g        geom
 	pageText string // how the allocation length is written in the configuration ("" = drawn: "64" or "064")
+	extra    string // replay: the further argument of the recorded configuration ("-" = none)
 }
 
 func mkPfxGeom(pool string, page int) pfxGeom {
@@ -97,10 +98,26 @@ func newPfxScn(t *Trace, pg pfxGeom, r *rand.Rand) (*pfxScn, error) {
 			pageText = "0" + pageText // a decimal number is a decimal number, leading zero or not
 		}
 	}
-	h, err := prefix.Plugin.Setup6(pg.pool, pageText)
-	t.Emit(Ev{"ev": "reset", "N": pg.g.n, "page": pg.page, "pool": pg.pool, "pagetext": pageText})
+	args := []string{pg.pool, pageText}
+	extra := ""
+	if pg.extra == "-" {
+	} else if pg.extra != "" {
+		extra = pg.extra
+		args = append(args, extra)
+	} else if r.Intn(6) == 0 {
+		// a further argument (the unchanged plugin ignores whatever follows the allocation length): if an instance comes to
+		// life with it, what it hands out is still what the property says - lifetimes included
+		extra = []string{"0s", "-1s", "400ms", "0", "30m", "2h", "junk"}[r.Intn(7)]
+		args = append(args, extra)
+	}
+	h, err := prefix.Plugin.Setup6(args...)
+	t.Emit(Ev{"ev": "reset", "N": pg.g.n, "page": pg.page, "pool": pg.pool, "pagetext": pageText, "extra": extra})
 	s := &pfxScn{t: t, pg: pg, h: h, r: r, told: map[int][]pfxHeld{}, owner: map[int]int{}, duids: map[int]dhcpv6.DUID{}}
-	if err != nil || h == nil {
+	if (err != nil || h == nil) && extra != "" {
+		// refusing a configuration with an argument too many is the plugin's right: nothing to observe
+		t.Emit(Ev{"ev": "note", "what": "prefix: configuration with a third argument refused: " + fmt.Sprint(err)})
+		s.dead = true
+	} else if err != nil || h == nil {
 		// a valid configuration was refused: an observation no action of the specification explains
 		t.Emit(Ev{"ev": "setupfail", "pool": pg.pool, "pagetext": pageText, "msg": fmt.Sprint(err)})
 		s.dead = true
@@ -336,8 +353,10 @@ func (s *pfxScn) send(c int, ias []pfxIA, relay int) bool {
 	msg.MessageType = mt
 	msg.AddOption(dhcpv6.OptClientID(s.duid(c)))
 	var iaEvs []Ev
-	for _, ia := range ias {
-		s.iaid++
+	for i, ia := range ias {
+		if i == 0 || s.r.Intn(6) != 0 { // now and then the client repeats the IAID of its previous IA_PD
+			s.iaid++
+		}
 		id := [4]byte{byte(s.iaid >> 24), byte(s.iaid >> 16), byte(s.iaid >> 8), byte(s.iaid)}
 		opt := &dhcpv6.OptIAPD{IaId: id, T1: time.Duration(s.r.Intn(100)) * time.Second, T2: time.Duration(s.r.Intn(200)) * time.Second}
 		var kinds []string
@@ -460,13 +479,35 @@ func (s *pfxScn) deliver(c, relay int, wire []byte, kinds [][]string) bool {
 		ans := []Ev{}
 		matched := 0
 		opts := bm.Options.IAPD()
+		// a client may repeat an IAID: the k-th IA_PD with IAID x is answered by the k-th IA_PD with IAID x of the reply
+		reqN, repN, occ := map[int]int{}, map[int]int{}, map[int]int{}
+		for _, ia := range iaEvs {
+			reqN[ia["iaid"].(int)]++
+		}
+		for _, o := range opts {
+			repN[iaidInt(o.IaId)]++
+		}
 		for _, ia := range iaEvs {
 			id := ia["iaid"].(int)
 			a := Ev{"iaid": id, "count": 0, "status": "none"}
 			pf := []Ev{}
+			j := occ[id]
+			occ[id]++
+			seen := -1
 			for _, o := range opts {
 				if iaidInt(o.IaId) != id {
 					continue
+				}
+				seen++
+				if reqN[id] > 1 {
+					if seen != j && !(j == reqN[id]-1 && seen > j) {
+						continue // another occurrence's answer (a surplus one counts against the last occurrence)
+					}
+					if seen > j {
+						a["count"] = a["count"].(int) + 1
+						matched++
+						continue
+					}
 				}
 				a["count"] = a["count"].(int) + 1
 				matched++
@@ -740,6 +781,24 @@ func runPrefixLong(t *Trace, seed int64, level, shard, shards int) error {
 			}
 		}
 	}
+	// ONE message with many IA_PD options (33, 40, 200): every one of them is answered - with a prefix while the pool has blocks,
+	// with NoPrefixAvail after that; then the same again (the answers are the client's prefixes)
+	if level <= 2 {
+		k++
+		if k%shards == shard {
+			for _, cnt := range []int{33, 40, 200} {
+				r := rand.New(rand.NewSource(seed*31 + int64(k*1000+cnt)))
+				s, err := newPfxScn(t, mkPfxGeom("2001:db8:0:fe00::/57", 64), r) // 128 blocks
+				if err != nil {
+					return err
+				}
+				many := make([]pfxIA, cnt)
+				s.send(0, many, 0)
+				s.send(1, []pfxIA{{}}, 0)
+				s.send(0, many, 1)
+			}
+		}
+	}
 	return nil
 }
 
@@ -805,6 +864,10 @@ func runPrefixReplay(t *Trace, path string) error {
 			pg := mkPfxGeom(toStr(e["pool"]), toInt(e["page"]))
 			if pt, ok := e["pagetext"].(string); ok {
 				pg.pageText = pt
+			}
+			pg.extra = "-"
+			if x, ok := e["extra"].(string); ok && x != "" {
+				pg.extra = x
 			}
 			s, err = newPfxScn(t, pg, rand.New(rand.NewSource(1)))
 			if err != nil {
